@@ -75,17 +75,8 @@ def has_condorcet(instance, weak_condorcet=False):
     :rtype: bool
     """
 
-    scores = defaultdict(lambda: defaultdict(lambda: 0))
-    for i, (order, multiplicity) in enumerate(instance.multiplicity.items()):
-        alternatives_before = []
-        for indif_class in order:
-            # Every alternative appearing before are beating the ones in the current indifference class
-            for alt_winning in alternatives_before:
-                score_dict_win = scores[alt_winning]
-                for alt_beaten in indif_class:
-                    score_dict_win[alt_beaten] += multiplicity
-                    scores[alt_beaten][alt_winning] -= multiplicity
-            alternatives_before.extend(indif_class)
+    # the table of copeland_scores holds every ordered pair, also those no voter compares
+    scores = copeland_scores(instance)
     if weak_condorcet:
         return any(min(s.values()) >= 0 for s in scores.values())
     return any(min(s.values()) > 0 for s in scores.values())
